@@ -55,6 +55,75 @@ def request_sequences(depth: int, acc: Acc):
     acc.counters["request_sequence_states"] = st.states
 
 
+# -- (iv) existing names x requests --------------------------------------------------------------
+# A graph arrives (constructed, or read back from a dictionary / YAML) with blocks that already carry generator-style
+# names, in any order and with any indices - in particular indices around the decimal carries (9/10, 99/100), where numeric
+# and textual order disagree.  Whatever is requested next must not be one of them.
+
+RESERVE_IDX = (0, 1, 2, 9, 10, 11, 99, 100)
+RESERVE_KINDS = ("synth_asign", "loop")
+
+
+def _name(flavour, kind, idx):
+    return {"block": f"{kind}_block_{idx}", "region": f"{kind}_region_{idx}", "var": f"__scfg_{kind}_var_{idx}__"}[flavour]
+
+
+def _reserve_work(args):
+    from numba_scfg.core.datastructures.scfg import SCFG
+    from numba_scfg.core.datastructures.basic_block import BasicBlock
+    kind, firsts, max_len, paths = args
+    acc = Acc()
+    alphabet = [_name(f, kind, i) for f in FLAVOURS for i in RESERVE_IDX]
+
+    def tuples(prefix):
+        yield prefix
+        if len(prefix) < max_len:
+            for nme in alphabet:
+                if nme not in prefix:
+                    yield from tuples(prefix + (nme,))
+    for first in firsts:
+        for existing in tuples((first,)):
+            names = ("entry",) + existing
+            graph = {}
+            for i, nme in enumerate(names):
+                graph[nme] = BasicBlock(name=nme, _jump_targets=(names[i + 1],) if i + 1 < len(names) else ())
+            for path in paths:
+                try:
+                    scfg = SCFG(graph=dict(graph))
+                    if path == "dict":
+                        scfg, _ = SCFG.from_dict(scfg.to_dict())
+                    elif path == "yaml":
+                        scfg, _ = SCFG.from_yaml(scfg.to_yaml())
+                except Exception as e:  # noqa: BLE001
+                    et, site = exc_fingerprint(e)
+                    acc.viol(PROP, f"{PROP}/reserve/raises/{et}", f"building/reloading a graph with block names {list(existing)} via {path} raised {et} at {site}",
+                             (existing, path), site=site, case={"kind": "reserve", "existing": list(existing), "path": path, "name_kind": kind})
+                    continue
+                handed = []
+                for flavour in FLAVOURS + FLAVOURS:
+                    handed.append(getattr(scfg.name_gen, f"new_{flavour}_name")(kind))
+                acc.states += 1
+                acc.transitions += len(handed)
+                acc.counters[f"reserve_cases[{path}]"] += 1
+                clash = [h for h in handed if h in graph]
+                if clash or len(set(handed)) != len(handed):
+                    acc.viol(PROP, f"{PROP}/reserve/name-exists", f"graph with blocks {list(existing)} (via {path}): the next requests for kind "
+                             f"{kind!r} hand out {handed}, of which {clash or 'a duplicate'} already exist(s)", (existing, path),
+                             shape=path, case={"kind": "reserve", "existing": list(existing), "path": path, "name_kind": kind})
+    return acc
+
+
+def reserve_space(tier: str, acc: Acc):
+    units = []
+    for kind in RESERVE_KINDS:
+        alphabet = [_name(f, kind, i) for f in FLAVOURS for i in RESERVE_IDX]
+        for nme in alphabet:
+            units.append((kind, [nme], 3 if tier != "quick" else 2, ("new", "dict")))
+            units.append((kind, [nme], 2 if tier != "quick" else 1, ("yaml",)))
+    for r in shard_map(_reserve_work, units):
+        acc.merge(r)
+
+
 # -- (ii)/(iii) histories with instrumentation ------------------------------------------------
 
 class Monitor:
@@ -214,6 +283,7 @@ def _work(args):
 def run(tier: str, seed: int):
     acc = Acc()
     request_sequences(4 if tier == "quick" else 5, acc)
+    reserve_space(tier, acc)
     h2, h1 = histories(2), histories(1)
     units = []
     if tier == "quick":
@@ -230,10 +300,23 @@ def run(tier: str, seed: int):
                    "counters + names handed out; (ii) stage pipeline histories with <= k dict/YAML reloads in the gaps, NameGenerator.new_* and "
                    "SCFG.add_block wrapped: a name handed out must not exist anywhere in the hierarchy, add_block must not replace a block of "
                    "another type, hierarchy must not shrink, paths preserved end to end; (iii) inputs whose block names lie in the generator's "
-                   "own namespace (all injective assignments of reserved-looking names to the non-entry blocks of E(3)/E(4))",
+                   "own namespace (all injective assignments of reserved-looking names to the non-entry blocks of E(3)/E(4)); (iv) every "
+                   "ordered tuple of up to k generator-style names (3 flavours x indices 0,1,2,9,10,11,99,100) as existing blocks of a graph "
+                   "that is constructed / reloaded from dict / reloaded from YAML, followed by six requests of that kind",
            "bounds": {"request_depth": 4 if tier == "quick" else 5, "max_reloads": 2, "histories_per_graph": len(h2)}}
     return {"acc": acc, "coverage": cov, "assumptions": [
         "pop-then-add of the same name with the same block type is the library's update idiom and is not an overwrite"]}
+
+
+def _reserve_replay(case) -> Acc:
+    acc = Acc()
+    want = tuple(case["existing"])
+    r = _reserve_work((case["name_kind"], [want[0]], len(want), (case["path"],)))
+    acc.viols = [v for v in r.viols if tuple((v.get("case") or {}).get("existing", ())) == want] or r.viols[:0]
+    if not acc.viols:
+        # the case dict is attached to the first few violations only: recompute directly
+        acc.viols = [v for v in r.viols if repr(list(want)) in v["detail"]]
+    return acc
 
 
 def replay(case) -> Acc:
@@ -245,6 +328,9 @@ def replay(case) -> Acc:
         if len(set(names)) != len(names):
             acc.viol(PROP, f"{PROP}/requests/name-reused", "name handed out twice", (tuple(map(tuple, case["sequence"])),))
         return acc
+    if case.get("kind") == "reserve":
+        return _reserve_work((case["name_kind"], [case["existing"][0]], 0, (case["path"],))) if len(case["existing"]) == 1 else \
+            _reserve_replay(case)
     g = tuple(tuple(r) for r in case["graph"])
     hist = tuple(tuple(h) for h in case.get("history", []))
     rename = {int(k): v for k, v in (case.get("rename") or {}).items()} or None
